@@ -301,7 +301,7 @@ fn check_lookup(z: &RefZone, qz: &HashMapTreeZone, name: &RName, rtype: u16, bel
 }
 
 pub fn run_c06(ctx: &Ctx, rep: &mut Report) {
-    let n = if ctx.is_miri() { ctx.cases(4, 160) } else { ctx.cases(2_400, 120_000) };
+    let n = if ctx.is_miri() { ctx.cases(4, 160) } else { ctx.cases(2_400, 24_000) };
     for case in ctx.case_range(n) {
         rep.current_case = case;
         let mut rng = ctx.rng("c06", case);
@@ -407,7 +407,7 @@ fn model_snapshot(z: &RefZone) -> Snapshot {
 }
 
 pub fn run_c20(ctx: &Ctx, rep: &mut Report) {
-    let n = if ctx.is_miri() { ctx.cases(4, 160) } else { ctx.cases(8_000, 400_000) };
+    let n = if ctx.is_miri() { ctx.cases(4, 160) } else { ctx.cases(8_000, 100_000) };
     for case in ctx.case_range(n) {
         rep.current_case = case;
         let mut rng = ctx.rng("c20", case);
@@ -621,7 +621,7 @@ fn show_issue(i: &Issue) -> String {
 }
 
 pub fn run_c21(ctx: &Ctx, rep: &mut Report) {
-    let n = if ctx.is_miri() { ctx.cases(4, 160) } else { ctx.cases(12_000, 600_000) };
+    let n = if ctx.is_miri() { ctx.cases(4, 160) } else { ctx.cases(12_000, 150_000) };
     for case in ctx.case_range(n) {
         rep.current_case = case;
         let mut rng = ctx.rng("c21", case);
@@ -692,7 +692,7 @@ fn entry_id<Z: Zone>(e: &Entry<Z, u64>) -> u64 {
 }
 
 pub fn run_c22(ctx: &Ctx, rep: &mut Report) {
-    let n = if ctx.is_miri() { ctx.cases(1, 32) } else { ctx.cases(12_000, 600_000) };
+    let n = if ctx.is_miri() { ctx.cases(1, 32) } else { ctx.cases(12_000, 150_000) };
     let pool: Vec<RName> = ["z.", "a.z.", "b.a.z.", "c.b.a.z.", "b.z.", ".", "a.b.z.", "other.", "A.Z."].iter().map(|s| RName::simple(s)).collect();
     let classes = [C_IN, C_CH, 65280u16];
     for case in ctx.case_range(n) {
